@@ -6,7 +6,8 @@ import sys
 from typing import Any, Dict
 
 from jinja2.sandbox import SandboxedEnvironment
-from jinja2 import FileSystemLoader
+from jinja2 import BaseLoader, Environment, FileSystemLoader, Template
+from jinja2.runtime import Context
 
 from sigma.exceptions import SigmaSecurityError
 
@@ -20,15 +21,21 @@ class TemplateSandboxedEnvironment(SandboxedEnvironment):
     sandbox, classes and class methods are not accessible from these objects. Otherwise a template
     could call loaders like ``pipeline.from_dict(..., allow_external_sources=True)`` and grant
     itself the capabilities that must be explicitly enabled by the caller. File system path objects
-    (e.g. ``rule.source.path``) are not accessible because they allow to read and write files.
+    (e.g. ``rule.source.path``) are not accessible because they allow to read and write files, and
+    neither are the objects of the template engine itself.
     """
+
+    # Objects that must not be reachable from a template: file system paths and the template
+    # engine's own objects. The compiled templates of the items are reachable from the pipeline and
+    # lead to the Jinja environment, which imports and calls arbitrary objects (add_extension).
+    _unsafe_types: tuple[type, ...] = (os.PathLike, Environment, Template, Context, BaseLoader)
 
     def is_safe_attribute(self, obj: Any, attr: str, value: Any) -> bool:
         if (
             inspect.isclass(value)
             or (inspect.ismethod(value) and inspect.isclass(value.__self__))
-            or isinstance(obj, os.PathLike)
-            or isinstance(value, os.PathLike)
+            or isinstance(obj, self._unsafe_types)
+            or isinstance(value, self._unsafe_types)
         ):
             return False
         return super().is_safe_attribute(obj, attr, value)
